@@ -149,7 +149,7 @@ class C41(Prop):
                   "fail. 'The body a call runs is the most recently defined one' and 'an undefined call fails' are decided "
                   "on the real PInterpreter by a Coq monitor over the observed node states; 'once per call, lines in order' "
                   "rests on the interpreter correspondence; 'a started macro may not be edited' belongs to C01.")
-    LEVEL_NOTE = ("Theorems are about coq/model/C41.v. Tie: generated methods are parsed by the real parser; the macro table "
+    LEVEL_NOTE = ("Theorems are about coq/model/MacroSearch.v (the search) and coq/model/Interp.v (registry, failing calls). Tie: generated methods are parsed by the real parser; the macro table "
                   "(per macro the calls of its body in source order, nested blocks/watches/alarms included, nested "
                   "definitions excluded) is extracted from the AST independently of the function under test, and "
                   "macro_calling_macro(macros) of every defined macro is compared with the model's search (same chain). A "
